@@ -1561,24 +1561,51 @@ func (c *Compiler) compileRepeatRange(sub *syntax.Regexp, minCount, maxCount int
 		}
 	}
 
-	// Concatenate minCount copies + (maxCount-minCount) optional copies
-	var subs []*syntax.Regexp
-	for i := 0; i < minCount; i++ {
-		subs = append(subs, sub)
-	}
-	// Create synthetic quest nodes with correct NonGreedy flag
-	questFlags := syntax.Flags(0)
-	if nonGreedy {
-		questFlags |= syntax.NonGreedy
-	}
+	// a{m,n} = m copies of a followed by NESTED optional copies, a(a(a)?)?,
+	// exactly as regexp/syntax simplifies it. A flat chain a?a?a? accepts the
+	// same strings, but lets a later copy match where an earlier one was
+	// skipped, which gives other capture positions than regexp:
+	// (a|aa){0,3}?b on "aaab" reported group 1 = [1 3], regexp [2 3].
+	//
+	// The nesting is built directly on NFA states (innermost copy first) rather
+	// than as a nested syntax tree, so that .{1,100} does not count as 100
+	// levels of recursion.
+	exit := c.builder.AddEpsilon(InvalidState)
+	next := exit
 	for i := 0; i < maxCount-minCount; i++ {
-		subs = append(subs, &syntax.Regexp{
-			Op:    syntax.OpQuest,
-			Flags: questFlags,
-			Sub:   []*syntax.Regexp{sub},
-		})
+		subStart, subEnd, err := c.compileRegexp(sub)
+		if err != nil {
+			return InvalidState, InvalidState, err
+		}
+		// After this copy: the next (more deeply nested) optional copy, or the exit
+		if err := c.builder.Patch(subEnd, next); err != nil {
+			epsilon := c.builder.AddEpsilon(next)
+			if err := c.builder.Patch(subEnd, epsilon); err != nil {
+				return InvalidState, InvalidState, err
+			}
+		}
+		// Skipping this copy skips all copies nested inside it
+		if nonGreedy {
+			next = c.builder.AddQuantifierSplit(exit, subStart)
+		} else {
+			next = c.builder.AddQuantifierSplit(subStart, exit)
+		}
 	}
-	return c.compileConcat(subs)
+	if minCount == 0 {
+		return next, exit, nil
+	}
+
+	start, end, err = c.compileRepeatExact(sub, minCount)
+	if err != nil {
+		return InvalidState, InvalidState, err
+	}
+	if err := c.builder.Patch(end, next); err != nil {
+		epsilon := c.builder.AddEpsilon(next)
+		if err := c.builder.Patch(end, epsilon); err != nil {
+			return InvalidState, InvalidState, err
+		}
+	}
+	return start, exit, nil
 }
 
 // compileEmptyMatch compiles an epsilon transition (matches without consuming input)
